@@ -124,6 +124,24 @@ class FalsyError(ValueError):
         return False
 
 
+class Bomb:
+    """context-manager object whose __repr__ can be made to raise (mode "raise") or to park the
+    calling thread (mode "park", only the thread `park_thread`) -- for histories on one Stack"""
+    mode = None
+    park_thread = None
+    parked = None
+    release = None
+
+    def __repr__(self):
+        import threading
+        if Bomb.mode == "raise":
+            raise RuntimeError("repr failed")
+        if Bomb.mode == "park" and threading.get_ident() == Bomb.park_thread:
+            Bomb.parked.set()
+            Bomb.release.wait(20)
+        return "<bomb>"
+
+
 # objects that are falsy but not None: the code must treat them like any other object wherever it
 # tests `is not None` (root, leaf, child root, context obj, error)
 FALSY = {"0": lambda: 0, "''": lambda: "", "[]": lambda: [], "()": lambda: (), "{}": lambda: {},
@@ -138,6 +156,8 @@ def mk_obj(spec):
         return spec[1]
     if spec[0] == "falsy":
         return FALSY[spec[1]]()
+    if spec[0] == "bomb":
+        return Bomb()
     return _OBJ_CLASSES[spec[0]](spec[1])
 
 
@@ -376,7 +396,7 @@ def gen_stack(rng, depth, width, nl=False, as_inner=False, as_child=False):
 def has_newline_payload(spec) -> bool:
     """F12's signature: some payload (root/leaf repr, description, varname) contains a newline"""
     def obj(o):
-        return o is not None and o[0] not in ("int", "falsy") and "\n" in o[1]
+        return o is not None and o[0] not in ("int", "falsy", "bomb") and "\n" in o[1]
 
     def st(s):
         return obj(s["root"]) or obj(s["leaf"]) or any(fr(f) for f in s["frames"])
@@ -448,7 +468,7 @@ def build(desc):
     run_case and coq_case of one descriptor must see the SAME objects (reprs hold addresses),
     so the most recent build is cached."""
     import json
-    key = json.dumps(desc, sort_keys=True)
+    key = json.dumps(desc, sort_keys=True)     # "hist" is part of the key: every history gets its own object
     if _last[0] == key:
         return _last[1]
     if "real" in desc:
@@ -496,3 +516,89 @@ def repeat_specials():
         yield {"root": None, "frames": [fr(hide=bool(i % 2)) for i in range(2 * n)], "leaf": None, "error": None}
         # frames that each carry the same context: entries alternate, no folding
         yield {"root": None, "frames": [fr(ctxs=[rc()]) for _ in range(n)], "leaf": None, "error": None}
+
+
+# ------------------------------------------------------------------ histories on ONE Stack object
+import contextlib
+
+
+@contextlib.contextmanager
+def history(st, hist, log):
+    """Run the operations of `hist` on the Stack `st`, then yield so that the caller observes the
+    projections on the SAME object (for ["thread"]: while another thread is parked in the middle of
+    a summary of it).  A projection is a pure function of the tree, so none of this may matter.
+      ["fail"]        a summary that fails part-way: some context object's __repr__ raises under
+                      capture_locals=True; the error must propagate and is contained here
+      ["abandon", k]  Frame.as_stdlib_summary_with_contexts() iterator advanced k steps and dropped
+      ["flags"]       successful calls with other flag combinations, format_flat, format
+      ["thread"]      a second thread parked inside a __repr__ called by its own summary"""
+    import gc
+    import threading
+    th = None
+    for op in hist:
+        if op[0] == "fail":
+            Bomb.mode = "raise"
+            try:
+                st.as_stdlib_summary(show_contexts=True, show_hidden_frames=True, capture_locals=True)
+                log.append("fail: no exception")
+            except RuntimeError:
+                log.append("fail: raised")
+            finally:
+                Bomb.mode = None
+        elif op[0] == "abandon":
+            for fr in st.frames[:2]:
+                it = fr.as_stdlib_summary_with_contexts(show_hidden_frames=True)
+                for _ in range(op[1]):
+                    if next(it, None) is None:
+                        break
+                del it
+            gc.collect()
+        elif op[0] == "flags":
+            st.as_stdlib_summary(show_contexts=True, show_hidden_frames=True)
+            st.as_stdlib_summary(show_contexts=False, capture_locals=True)
+            st.format_flat(show_contexts=True)
+            st.format(show_hidden_frames=True)
+        elif op[0] == "thread":
+            Bomb.parked, Bomb.release = threading.Event(), threading.Event()
+
+            def worker():
+                Bomb.park_thread = threading.get_ident()
+                Bomb.mode = "park"
+                try:
+                    st.as_stdlib_summary(show_contexts=True, show_hidden_frames=True, capture_locals=True)
+                    log.append("thread: finished")
+                except Exception as ex:      # pragma: no cover
+                    log.append("thread: raised %r" % (ex,))
+            th = threading.Thread(target=worker, daemon=True)
+            th.start()
+            log.append("thread: parked" if Bomb.parked.wait(10) else "thread: never parked")
+    try:
+        yield
+    finally:
+        if th is not None:
+            Bomb.release.set()
+            th.join(20)
+            Bomb.mode = None
+            Bomb.park_thread = None
+
+
+HISTORIES = [[["fail"]], [["abandon", 1]], [["abandon", 2]], [["abandon", 3]], [["flags"]], [["thread"]],
+             [["flags"], ["fail"], ["abandon", 1]], [["fail"], ["fail"]]]
+
+
+def bomb_trees():
+    """trees in which a context object's repr can fail/park at several depths: frame context, child
+    context, context of a frame of an inner stack (all enclosing contexts are then mid-summary)"""
+    fr = lambda ctxs=(), t="f0": {"t": t, "lineno": 7, "hide": False, "hide_line": False, "ctxs": list(ctxs)}
+    bomb = lambda **kw: dict(_ctx(None), obj=["bomb"], varname="b", start_line=2, **kw)
+    plain = lambda d="p", **kw: dict(_ctx(d), obj=["Lock", "<L>"], varname="v", start_line=6, **kw)
+    inner = {"root": None, "frames": [fr(), fr(t="meth")], "leaf": None, "error": None}
+    yield {"root": None, "frames": [fr([bomb(inner=inner, kids=[["c", plain("k")]])])], "leaf": None, "error": None}
+    yield {"root": None, "frames": [fr([plain(inner=inner), bomb(), plain("q")]), fr([plain()], t="uni")],
+           "leaf": ["R", "<l>"], "error": None}
+    yield {"root": None, "frames": [fr([plain(kids=[["c", plain("k1")], ["c", bomb(inner=inner)], ["c", plain("k2")]])])],
+           "leaf": None, "error": None}
+    deep = {"root": None, "frames": [fr([plain("in1"), bomb(kids=[["c", plain("k3")]])])], "leaf": None, "error": None}
+    yield {"root": ["R", "<r>"], "frames": [fr([plain(inner=deep, kids=[["c", plain("k4")]])]), fr([plain("z")], t="cmeth")],
+           "leaf": None, "error": ["V", "bad"]}
+    yield {"root": None, "frames": [fr([dict(bomb(inner=inner), hide=True), plain()])], "leaf": None, "error": None}
